@@ -195,7 +195,8 @@ def run(ctx):
             if not unreviewed_discharged(fn, kind, n):
                 bad = [bi_ for f_, bi_ in where[(fn, kind)] if not guarded_by_related_test(f_, bi_)[0]]
                 f0 = where[(fn, kind)][0][0]
-                r.violate(key, f"unreviewed panic-capable construct: {fn} contains {n} x {kind}, not in the reviewed table spec/panic_sites.json and not dominated by a test of its operands ({guarded_by_related_test(f0, bad[0])[1]}): a panic reachable from user input breaks the property", f0.loc())
+                why = guarded_by_related_test(f0, bad[0])[1] if bad else "a test of the divisor against zero does not exclude MIN / -1, MIN % -1"
+                r.violate(key, f"unreviewed panic-capable construct: {fn} contains {n} x {kind}, not in the reviewed table spec/panic_sites.json and not excluded by a dominating test of its operands ({why}): a panic reachable from user input breaks the property", f0.loc())
         elif ent.get("finding"):
             r.violate(key, f"{fn}: {kind} is reachable with user-controlled data ({ent['why']})", None)
         elif n > ent["count"]:
@@ -288,6 +289,12 @@ def run(ctx):
         keys = [bypath[c].key for c in comp]
         if not any(any(c.startswith(k) for k in REVIEWED) for c in keys):
             r.violate(key, f"unreviewed recursion in the crate (stack exhaustion risk on deep input): {comp}", None)
+
+    # ------------------------------------------------------------------ R15.5 (shared with C03 R03.3)
+    # the guard's template depth is decremented with plain `-`: the complete (state x tag) table also shows that a depth
+    # of 0 is never stored (InTemplateInSelect(0) followed by </template> underflows in a build with overflow checks)
+    from .c03 import rule_ambiguity_guard, spec_tables
+    rule_ambiguity_guard(ctx, idx, mir, spec_tables(), rid="R15.5")
 
     ctx.not_decided += ["absence of panics / overflow for all inputs (only the accounting and guards of panic-capable constructs are decided)", "stack exhaustion inside the selectors / cssparser crates", "running-time bounds beyond progress of the state machine"]
     ctx.assumptions += ["reviewed entries of spec/panic_sites.json are guarded as stated there", "recursion detection follows resolved calls and closure creation; calls through generic trait bounds (type-structural recursion such as Option<T>::align) are not followed"]
